@@ -111,6 +111,10 @@ def encx(x):
 
 def apply(f):
     return f()
+
+
+def ident(v=None):
+    return v
 '''
 
 
@@ -160,9 +164,15 @@ def _stmt_lines(shape: Shape, f: str, i: int, s: Dict[str, str], args: Dict[Tupl
             return ["    sv.append(%s().run())" % g]
         a_ = s["a"]
         if a_ in ("none", "default"):
+            if shape.real.get("kw_wrap"):
+                return ["    sv.append(L.ident(v=%s()))" % g]
             return ["    sv.append(%s())" % g]
         lit_ = ARG_SRC[args.get((f, i + 1), 0)]
         src_ = {"const": lit_, "kw": "x=" + lit_, "pass": "x", "runtime": "L.rt(%s, sv)" % lit_}[a_]
+        if shape.real.get("kw_wrap"):
+            # realisation: the plain call sits in a keyword-argument value of a non-accepted identity
+            # helper (seeded change R7-C09: the load / keep pre-pass skipping keyword values)
+            return ["    sv.append(L.ident(v=%s(%s)))" % (g, src_)]
         return ["    sv.append(%s(%s))" % (g, src_)]
     if k == "eval":
         return ["    sv.append(dds.eval(%s))" % g]
